@@ -49,6 +49,8 @@ def drive(ctx):
             ctx.emit("native_acc", {}, [{"k": "date", "w": w[:3], "cls": "Date"}])
         elif m == 1:
             ctx.emit("native_acc", {}, [{"k": "time", "w": w[3:], "cls": "Time"}])
+            ctx.emit("native_acc", {}, [{"k": "time", "w": w[3:], "cls": "Time", "z": {"n": "", "fo": rnd.choice(FIXED_OFFSETS)},
+                                         "zk": "fixed"}])
         elif m == 2:
             ctx.emit("native_acc", {}, [mk_dt(NAIVE, w, k % 2)])
             w2 = i3_to_wall(sec_to_i3(s + rnd.randrange(-10 ** 6, 10 ** 6), 5))
